@@ -7,6 +7,9 @@
 //	kind fake : newSharedPacketConn over a counting fake muxedPacketConn (counts Close calls; honours
 //	            SetWriteDeadline like a real socket: a write under a past deadline fails with the deadline error)
 //	kind udp  : handles returned by UDPMuxDefault.GetConn for one ufrag (underlying *udpMuxedConn)
+//	kind tcpm<k>: the same *tcpPacketConn with k scripted net.Conns (vShTConn: honours its write deadline like a
+//	            socket; `refuse c on|off` makes connection c refuse SetWriteDeadline / SetDeadline - the fault
+//	            "SetWriteDeadline fails" on the TCP side); `write h c` goes to connection c
 //	kind udpap: the same over an AddrPort-capable shared socket: the handles are *sharedAddrPortConn and
 //	            `writeap h` goes through sharedAddrPortConn.WriteToAddrPort (on the other kinds = write)
 //	kind tcp  : handles returned by TCPMuxDefault.GetConnByUfrag (underlying *tcpPacketConn, one TCP
@@ -159,6 +162,59 @@ func vShSP(c net.PacketConn) (*sharedPacketConn, bool) {
 	return nil, false
 }
 
+// vShTConn: one scripted TCP connection of the ufrag.
+type vShTConn struct {
+	lAddr, rAddr net.Addr
+	mu           sync.Mutex
+	wdl          time.Time
+	refuse       bool
+	ever         bool // has refused at some time (statistics only)
+	in           chan []byte
+	rest         []byte
+	closed       chan struct{}
+	once         sync.Once
+}
+
+var errVShRefused = errors.New("connection reset: deadline refused")
+
+func (c *vShTConn) Read(b []byte) (int, error) {
+	if len(c.rest) == 0 {
+		select {
+		case f := <-c.in:
+			c.rest = f
+		case <-c.closed:
+			return 0, io.EOF
+		}
+	}
+	n := copy(b, c.rest)
+	c.rest = c.rest[n:]
+	return n, nil
+}
+
+func (c *vShTConn) Write(b []byte) (int, error) {
+	c.mu.Lock()
+	d := c.wdl
+	c.mu.Unlock()
+	if !d.IsZero() && !time.Now().Before(d) {
+		return 0, os.ErrDeadlineExceeded
+	}
+	return len(b), nil
+}
+func (c *vShTConn) Close() error                    { c.once.Do(func() { close(c.closed) }); return nil }
+func (c *vShTConn) LocalAddr() net.Addr             { return c.lAddr }
+func (c *vShTConn) RemoteAddr() net.Addr            { return c.rAddr }
+func (c *vShTConn) SetReadDeadline(time.Time) error { return nil }
+func (c *vShTConn) SetDeadline(t time.Time) error   { return c.SetWriteDeadline(t) }
+func (c *vShTConn) SetWriteDeadline(t time.Time) error {
+	c.mu.Lock()
+	defer c.mu.Unlock()
+	if c.refuse {
+		return errVShRefused
+	}
+	c.wdl = t
+	return nil
+}
+
 type vShListener struct {
 	closedCh chan struct{}
 	once     sync.Once
@@ -192,6 +248,8 @@ type vShSession struct {
 	tmux   *TCPMuxDefault
 	tconn  *tcpPacketConn
 	remote net.Conn // far end of the attached TCP connection
+	nconns int      // kind tcpm<k>: k scripted connections instead of the pipe
+	tconns []*vShTConn
 	raddr  net.Addr
 }
 
@@ -244,7 +302,12 @@ func vShNew(kind string) (*vShSession, string) {
 	case "tcp":
 		s.tmux = NewTCPMuxDefault(TCPMuxParams{Listener: &vShListener{closedCh: make(chan struct{})}, ReadBufferSize: 64})
 	default:
-		return nil, "bad-op kind"
+		var k int
+		if n, err := fmt.Sscanf(kind, "tcpm%d", &k); n != 1 || err != nil || k < 1 || k > 16 {
+			return nil, "bad-op kind"
+		}
+		s.kind, s.nconns = "tcp", k
+		s.tmux = NewTCPMuxDefault(TCPMuxParams{Listener: &vShListener{closedCh: make(chan struct{})}, ReadBufferSize: 64})
 	}
 	return s, "ok"
 }
@@ -280,7 +343,22 @@ func (s *vShSession) open() string {
 			return "err:other not-a-sharedPacketConn"
 		}
 		tc, _ := sp.underlying.(*tcpPacketConn)
-		if s.tconn == nil {
+		if s.tconn == nil && s.nconns > 0 {
+			s.tconn = tc
+			for i := 0; i < s.nconns; i++ {
+				c := &vShTConn{
+					lAddr:  &net.TCPAddr{IP: net.IPv4(10, 0, 0, 1), Port: 5001},
+					rAddr:  &net.TCPAddr{IP: net.IPv4(10, 0, 1, byte(i+1)), Port: 7000 + i},
+					in:     make(chan []byte, 64),
+					closed: make(chan struct{}),
+				}
+				if err := tc.AddConn(c, nil); err != nil {
+					return "err:other addconn"
+				}
+				s.tconns = append(s.tconns, c)
+			}
+			s.raddr = s.tconns[0].rAddr
+		} else if s.tconn == nil {
 			s.tconn = tc
 			local, remote := net.Pipe()
 			if err := tc.AddConn(local, nil); err != nil {
@@ -453,10 +531,7 @@ func (s *vShSession) read(h int) string {
 }
 
 func (s *vShSession) closeH(h int) string {
-	err := s.handles[h].Close()
-	if err != nil {
-		return vShClass(err)
-	}
+	err := s.handles[h].Close() // an error is the refused clear of the shared write deadline: the close is done
 	rel, odd := 0, ""
 	for _, rd := range s.pend[h] {
 		r, ok := vShWaitP(rd.res)
@@ -470,7 +545,7 @@ func (s *vShSession) closeH(h int) string {
 		}
 	}
 	s.pend[h] = nil
-	return fmt.Sprintf("ok u=%d rel=%d%s", s.uCloses(), rel, odd)
+	return fmt.Sprintf("%s u=%d rel=%d%s", vShClass(err), s.uCloses(), rel, odd)
 }
 
 // abortH performs on handle h what candidateBase.abortIO performs on the candidate's conn (first error
@@ -534,9 +609,13 @@ func (s *vShSession) feed() string {
 		frame := make([]byte, 2+3)
 		binary.BigEndian.PutUint16(frame, 3)
 		copy(frame[2:], []byte{1, 2, 3})
-		_ = s.remote.SetWriteDeadline(time.Now().Add(10 * time.Second))
-		if _, err := s.remote.Write(frame); err != nil {
-			return vShClass(err)
+		if s.nconns > 0 {
+			s.tconns[0].in <- frame
+		} else {
+			_ = s.remote.SetWriteDeadline(time.Now().Add(10 * time.Second))
+			if _, err := s.remote.Write(frame); err != nil {
+				return vShClass(err)
+			}
 		}
 		if s.totalPending() == 0 {
 			limit := 100000
@@ -599,6 +678,19 @@ func vShExec(o *vOut, toks []string) string {
 		return s.open()
 	case "feed":
 		return s.feed()
+	case "refuse": // refuse <c> on|off
+		var c int
+		if len(toks) != 4 || (toks[3] != "on" && toks[3] != "off") {
+			return "bad-op"
+		}
+		if _, err := fmt.Sscanf(toks[2], "%d", &c); err != nil || c < 0 || c >= len(s.tconns) {
+			return "bad-handle"
+		}
+		s.tconns[c].mu.Lock()
+		s.tconns[c].refuse = toks[3] == "on"
+		s.tconns[c].ever = s.tconns[c].ever || toks[3] == "on"
+		s.tconns[c].mu.Unlock()
+		return "ok"
 	}
 	h, ok := hArg()
 	if !ok {
@@ -614,6 +706,17 @@ func vShExec(o *vOut, toks []string) string {
 		dst := net.Addr(udst)
 		if s.kind == "tcp" {
 			dst = s.raddr
+		}
+		unhealthy := false
+		if len(toks) == 4 { // write <h> <c>: to connection c of the ufrag
+			var c int
+			if _, err := fmt.Sscanf(toks[3], "%d", &c); err != nil || c < 0 {
+				return "bad-op"
+			}
+			if c < len(s.tconns) {
+				dst = s.tconns[c].rAddr
+				unhealthy = s.tconns[c].ever
+			}
 		}
 		var err error
 		if w, ok := s.handles[h].(AddrPortReaderWriter); ok && toks[1] == "writeap" {
@@ -635,6 +738,8 @@ func vShExec(o *vOut, toks []string) string {
 				o.stat("shared.obs.write_timeout_under_own_deadline")
 			case held:
 				o.stat("shared.obs.write_timeout_under_deadline_held_by_open_sibling(shared by design)")
+			case unhealthy:
+				o.stat("shared.obs.write_timeout_on_a_connection_that_refused_deadline_calls(not healthy)")
 			default:
 				o.stat("shared.obs.write_timeout_under_deadline_of_no_open_handle")
 			}
@@ -670,13 +775,13 @@ func vShExec(o *vOut, toks []string) string {
 		}
 		if toks[1] == "setwd" {
 			err := s.handles[h].SetWriteDeadline(t)
-			if err == nil {
+			if err == nil || errors.Is(err, errVShRefused) { // refused by one connection: applied to the others
 				s.wdOwn[h] = !t.IsZero()
 			}
 			return vShClass(err)
 		}
 		err := s.handles[h].SetDeadline(t)
-		if err == nil {
+		if err == nil || errors.Is(err, errVShRefused) {
 			s.rdPast[h] = !t.IsZero()
 			s.wdOwn[h] = !t.IsZero()
 		}
@@ -690,7 +795,7 @@ func vShExec(o *vOut, toks []string) string {
 // ---- generator -----------------------------------------------------------------------------
 
 func vShGen(o *vOut, r *vRand, thorough bool, args []string, emit func(op string)) {
-	kinds := []string{"fake", "udp", "tcp", "udpap"}
+	kinds := []string{"fake", "udp", "tcp", "udpap", "tcpm3"}
 	// boundary sessions first, for every kind
 	for _, k := range kinds {
 		for _, sess := range [][]string{
@@ -716,7 +821,7 @@ func vShGen(o *vOut, r *vRand, thorough bool, args []string, emit func(op string
 				o.stat("shared.sessions." + k)
 			}
 		}
-		if k != "tcp" {
+		if !strings.HasPrefix(k, "tcp") {
 			emit("shared new " + k)
 			for _, op := range []string{"open", "open", "setrd 0 past", "read 0", "read 1", "feed", "setrd 0 zero", "close 1", "read 0", "close 0", "setrd 0 past"} {
 				emit("shared " + op)
@@ -725,7 +830,7 @@ func vShGen(o *vOut, r *vRand, thorough bool, args []string, emit func(op string
 	}
 	// deadline setters and the abortIO sequence on one handle while a sibling stays open (tcp first: the
 	// underlying *tcpPacketConn forwards write deadlines to the connections shared by all handles)
-	for _, k := range []string{"tcp", "udp", "fake", "udpap"} {
+	for _, k := range []string{"tcp", "udp", "fake", "udpap", "tcpm2"} {
 		for _, sess := range [][]string{
 			{"open", "open", "write 1", "abort 0", "write 1", "feed", "read 1", "read 1", "setwd 1 zero", "write 1", "close 1"},
 			{"open", "abort 0", "write 0", "abort 0"},
@@ -746,15 +851,58 @@ func vShGen(o *vOut, r *vRand, thorough bool, args []string, emit func(op string
 			o.stat("shared.sessions.deadline_boundary")
 		}
 	}
-	n := 200
+	// several TCP connections per ufrag, one of them refusing SetWriteDeadline (the fault "SetWriteDeadline fails" on
+	// the TCP side): the deadline armed by a handle that goes away must be cleared from EVERY healthy connection -
+	// all of them are written to afterwards, so the verdict does not depend on the order in which the mux visits them
+	// (repeated: the refusing connection may still happen to be visited last)
+	for round := 0; round < 6; round++ {
+		k, bad := 8, 7-round // 7 healthy + 1 refusing
+		if round >= 4 {
+			k, bad = 2, round-4
+		}
+		all := func(h int) []string {
+			var ops []string
+			for c := 0; c < k; c++ {
+				ops = append(ops, fmt.Sprintf("write %d %d", h, c))
+			}
+			return ops
+		}
+		refOn, refOff := fmt.Sprintf("refuse %d on", bad), fmt.Sprintf("refuse %d off", bad)
+		for _, sess := range [][]string{
+			// the connection starts refusing between the arming and the close of the arming handle
+			append(append(append(append([]string{"open", "open"}, all(1)...), "setd 0 past", "write 1 0", refOn, "close 0"), all(1)...),
+				refOff, "setwd 1 zero", fmt.Sprintf("write 1 %d", bad), "close 1"),
+			// it refuses already when abortIO arms and clears
+			append(append([]string{"open", "open", refOn, "abort 0"}, all(1)...), "open", "write 2 0", "close 1", "close 2"),
+			// two arming handles, the refusing connection keeps the first deadline
+			append(append(append(append([]string{"open", "open", "open", "setwd 0 past", refOn, "setwd 1 past", "close 0"}, all(2)...),
+				"close 1"), all(2)...), refOff, "setd 2 zero", "write 2 0", fmt.Sprintf("write 2 %d", bad), "close 2"),
+		} {
+			emit(fmt.Sprintf("shared new tcpm%d", k))
+			for _, op := range sess {
+				emit("shared " + op)
+			}
+			o.stat("shared.sessions.tcpm")
+			o.stat("shared.sessions.refusing_connection_boundary")
+		}
+	}
+	n := 240
 	if thorough {
-		n = 24000
+		n = 28000
 	}
 	n = vEnvInt("VERIF_SH_N", n)
 	for i := 0; i < n; i++ {
 		k := kinds[i%len(kinds)]
+		nconn := 0
+		if k == "tcpm3" { // 2..8 scripted connections
+			nconn = 2 + r.intn(7)
+			k = fmt.Sprintf("tcpm%d", nconn)
+			o.stat("shared.sessions.tcpm")
+		} else {
+			o.stat("shared.sessions." + k)
+		}
+		isTCP := strings.HasPrefix(k, "tcp")
 		emit("shared new " + k)
-		o.stat("shared.sessions." + k)
 		// the generator's own bookkeeping (only to keep sequences meaningful)
 		var open []bool
 		var pend []int
@@ -813,7 +961,7 @@ func vShGen(o *vOut, r *vRand, thorough bool, args []string, emit func(op string
 				if open[h] && pend[h] >= 2 {
 					continue
 				}
-				if k == "tcp" && open[h] && past[h] && queue > 0 {
+				if isTCP && open[h] && past[h] && queue > 0 {
 					continue // both select cases ready in tcpPacketConn.readFromContext: not deterministic
 				}
 				emit(fmt.Sprintf("shared read %d", h))
@@ -828,6 +976,8 @@ func vShGen(o *vOut, r *vRand, thorough bool, args []string, emit func(op string
 			case c < 75:
 				if k == "udpap" && r.chance(1, 2) {
 					emit(fmt.Sprintf("shared writeap %d", r.intn(len(open))))
+				} else if nconn > 0 {
+					emit(fmt.Sprintf("shared write %d %d", r.intn(len(open)), r.intn(nconn)))
 				} else {
 					emit(fmt.Sprintf("shared write %d", r.intn(len(open))))
 				}
@@ -851,7 +1001,7 @@ func vShGen(o *vOut, r *vRand, thorough bool, args []string, emit func(op string
 			case c < 90:
 				h := r.intn(len(open))
 				v := "zero"
-				if k != "tcp" && r.chance(1, 2) {
+				if !isTCP && r.chance(1, 2) {
 					v = "past"
 				} else if r.chance(1, 2) {
 					v = "future"
@@ -864,7 +1014,7 @@ func vShGen(o *vOut, r *vRand, thorough bool, args []string, emit func(op string
 			case c < 94:
 				h := r.intn(len(open))
 				v := "zero"
-				if k != "tcp" && r.chance(1, 2) {
+				if !isTCP && r.chance(1, 2) {
 					v = "past"
 				}
 				emit(fmt.Sprintf("shared setd %d %s", h, v))
@@ -873,6 +1023,15 @@ func vShGen(o *vOut, r *vRand, thorough bool, args []string, emit func(op string
 				}
 				o.stat("shared.ops.setd")
 			default:
+				if nconn > 0 && r.chance(1, 3) {
+					v := "on"
+					if r.chance(1, 3) {
+						v = "off"
+					}
+					emit(fmt.Sprintf("shared refuse %d %s", r.intn(nconn), v))
+					o.stat("shared.ops.refuse")
+					continue
+				}
 				v := "zero"
 				if r.chance(1, 2) {
 					v = "past"
